@@ -66,11 +66,18 @@ def new_save_config(rule_name='verif', skip_brute=False, skip_case=False, uuid=N
     return cfg
 
 
+def stamp_uuid(save_config, pcfg):
+    """what pcfg_guesser.main() does for a new session before it starts the CrackingSession"""
+    if not save_config.has_option('rule_info', 'uuid'):
+        save_config.set('rule_info', 'uuid', pcfg.ruleset_info['uuid'])
+
+
 def run_session(pcfg, save_config, save_filename, load=False, limit=None, quit_at_pt=None,
                 quit_at_guess=None):
     """One real CrackingSession.run() with the keyboard thread replaced by a script.
     returns dict(lines=[...], events=[('pt', pt_item) | ('guess', s)], saved=bool)"""
     import lib_guesser.cracking_session as cs
+    stamp_uuid(save_config, pcfg)
     ctl = QuitController(pcfg, quit_at_pt, quit_at_guess)
     FakeThread.controller = ctl
     lines = []
